@@ -13,7 +13,7 @@
    "the asynchronous handlers compute mgm_next at every cycle boundary under every FIFO schedule"
    (mgm_refines_rounds); it is checked on every run by M_Mgm.rcheck_case, which replays
    [round_exec] against the cycle-boundary assignments of the real asynchronous executions. *)
-From PyDcop Require Import Base Net M_Mgm P_Mgm.
+From PyDcop Require Import Base Net M_Mgm P_Mgm M_Mgm2 P_Mgm2.
 
 (* no two variables sharing a constraint both move in the same cycle (strict best signed gain
    among neighbours, lexical tie-break) *)
@@ -32,6 +32,19 @@ Theorem mgm_rounds_monotone_partial : forall d, wf_dcop d = true -> forall drs a
   if d_max d then gcost d a <= gcost d (fold_left (mgm_next d) drs a)
   else gcost d (fold_left (mgm_next d) drs a) <= gcost d a.
 Proof. exact mgm_rounds_monotone_lemma. Qed.
+
+(* MGM2: the statement is FALSE of the code as it is (known finding C03-mgm2-coordinated-gain:
+   _find_best_offer counts the current cost of the constraints shared with the offerer as gain; the
+   formula is pinned by the baseline tests test_find_best_offer_*).  Witness: an execution of the
+   asynchronous MGM2 model (two variables, min mode, no variable cost) in which both partners move
+   together and the global cost goes from 5 to 6.  No monotonicity theorem is claimed for MGM2. *)
+Theorem mgm2_monotone_refuted :
+  let evs := snd (run w03_proto w03_sched) in
+  d_max w03_d = false
+  /\ (forall n, In n [0; 1] -> 2 <= cycles_reached evs n)
+  /\ map (val_at evs 0) [0; 1] = [0; 0] /\ map (val_at evs 1) [0; 1] = [1; 1]
+  /\ gcost w03_d (val_at evs 0) = 5 /\ gcost w03_d (val_at evs 1) = 6.
+Proof. exact mgm2_monotone_refuted_l. Qed.
 
 (* non-vacuity: v0 - v1 - v2 chain, min mode, own cost on v1; one cycle moves v1 only (gain 5
    beats the others) and takes the global cost from 12 to 6; the next cycle moves v2 *)
